@@ -93,11 +93,11 @@ def run(tier, seed):
     cases += wl
     if tier == "thorough":
         g3 = model(w, 3, ["Emit"], "gen3", view=False)
-        cases += g3.replays[seed % 10::10]
+        cases += g3.replays[seed % 50::50]
     cp = os.path.join(w, "cases.ndjson")
     write_ndjson(cp, cases)
     out = os.path.join(w, "out.ndjson")
-    vh(["c20", "--cases", cp, "--tuftool", tuftool, "--out", out], timeout=3400)
+    vh(["c20", "--cases", cp, "--tuftool", tuftool, "--out", out], timeout=3400 if tier == "quick" else 9000)
     rows = read_ndjson(out)
     stats = {"evaluations": 0, "nontrivial": set()}
     judge(v, rows, stats)
@@ -106,7 +106,7 @@ def run(tier, seed):
                for r in rows[len(rows) // 2: len(rows) // 2 + 2]]
     cov = {"states": mc.distinct, "transitions": mc.generated, "traces_validated_against_impl": stats["evaluations"],
            "samples": samples, "evaluations": stats["evaluations"], "distinct_nontrivial": len(stats["nontrivial"]),
-           "rule": "sequences = behaviours of RootCli.tla over 3 keys (RSA, Ed25519, ECDSA): all sequences of 2 commands (thorough: a tenth of all of 3) and simulated sequences of 6 (thorough: 12) commands among add-key (root / timestamp / all roles), remove-key (from root / everywhere), set-threshold, bump-version, set-version 2^32, expire, sign with every non-empty key set x --cross-sign x --ignore-threshold; each run through the tuftool binary built from the working tree; after every invocation the file is parsed by the harness, key ids recomputed and signatures verified independently; non-trivial = the sequence contains a sign",
+           "rule": "sequences = behaviours of RootCli.tla over 3 keys (RSA, Ed25519, ECDSA): all sequences of 2 commands (thorough: a fiftieth of all of 3) and simulated sequences of 6 (thorough: 12) commands among add-key (root / timestamp / all roles), remove-key (from root / everywhere), set-threshold, bump-version, set-version 2^32, expire, sign with every non-empty key set x --cross-sign x --ignore-threshold; each run through the tuftool binary built from the working tree; after every invocation the file is parsed by the harness, key ids recomputed and signatures verified independently; non-trivial = the sequence contains a sign",
            "exhaustive": False}
     return v.finish("model_checking", cov, ["TLC checks the command semantics (all sequences up to 6-7 commands with the history hidden); replayed sequences are a sample beyond length 2; the file is judged by the harness's own parser, canonical JSON, digest and signature verification"])
 
